@@ -50,9 +50,11 @@ def make(tags, vs):
         return Molecules(np.zeros((0, 3)))
     pos = np.stack([tags, 2 * tags, 3 * tags], axis=1) if len(tags) else np.zeros((0, 3))
     rot = Rotation.from_rotvec(np.stack([tags * 0.01, np.zeros_like(tags), np.zeros_like(tags)], axis=1)) if len(tags) else None
-    feats = {"tag": [int(t) for t in tags], "v": [int(v) for v in vs], "f": [float(t) / 4 for t in tags],
-             "s": [f"t{int(t)}" for t in tags], "b": [bool(int(t) % 2) for t in tags],
-             "nul": [None if int(t) % 3 == 0 else int(t) for t in tags]}
+    import polars as pl
+    feats = pl.DataFrame({"tag": pl.Series([int(t) for t in tags], dtype=pl.Int64), "v": pl.Series([int(v) for v in vs], dtype=pl.Int64),
+                          "f": pl.Series([float(t) / 4 for t in tags], dtype=pl.Float64),
+                          "s": pl.Series([f"t{int(t)}" for t in tags], dtype=pl.String), "b": pl.Series([bool(int(t) % 2) for t in tags], dtype=pl.Boolean),
+                          "nul": pl.Series([None if int(t) % 3 == 0 else int(t) for t in tags], dtype=pl.Int64)})   # typed nullable column
     return Molecules(pos, rot, features=feats)
 
 
